@@ -529,13 +529,21 @@ func (e *c17Env) op(line string, exp c17Expect, run func() (bool, string)) bool 
 		if nc.m.env.Assignee == "" || nc.m.env.AssigneeRemoteAddress == "" {
 			e.hit("success_enqueues_exactly_one_call", fmt.Sprintf("job %q: call has no assignee", job.id))
 		}
+		// a request delivered as a transaction runs inside a block, and that block's own evm end blocker adds just-in-time
+		// valset updates for EVERY chain with a pending call and an outdated valset: those are the block's, not the
+		// request's (the model predicts the whole queue delta of the block line by line); at keeper level nothing but the
+		// request runs, and anything on another chain is the request's doing
+		inBlock := strings.HasPrefix(line, "exec b ")
+		own := 0
 		for _, o := range newOther {
-			if o.ref != job.chain {
+			if o.ref == job.chain {
+				own++
+			} else if !inBlock {
 				e.hit("accompanying_valset_other_chain", fmt.Sprintf("execution on %s put %s on %s", job.chain, o.m.canon, o.ref))
 			}
 		}
-		if len(newOther) > 1 {
-			e.hit("accompanying_valset_other_chain", fmt.Sprintf("execution was accompanied by %d other messages", len(newOther)))
+		if own > 1 {
+			e.hit("accompanying_valset_other_chain", fmt.Sprintf("execution was accompanied by %d other messages on its chain", own))
 		}
 	case exp.exec && !ok:
 		e.rej++
